@@ -257,9 +257,21 @@ static FWire hammer(Reader& r) {
 }
 
 // ------------------------------------------------------------------ op 3: an exception raised inside a parallel region
-// trigger 1: S block written into a target that is too small (om_assert of SymMatrix::operator() fires inside the
-//            region, in some iterations only); trigger 2: the same for the D block; trigger 3: N block;
-// trigger 4: public API: SurfSourceMat / whatever `f` on a model prepared to fail (status only)
+// Every trigger makes om_assert fire inside a region, in some iterations only, because the caller's target is too
+// small for the unknown indices of the mesh:
+//   1 DiagonalBlock::S   2 DiagonalBlock::D   3 DiagonalBlock::N      (mesh 0, templates of operators.h)
+//   5 NonDiagonalBlock::S 6 NonDiagonalBlock::N 7 NonDiagonalBlock::D (meshes 0,1)
+//   8 operatorFerguson   9 operatorDipolePotDer  10 operatorDipolePot  (library functions, caller-supplied Matrix / Vector)
+//   4 a public assembly function `f` on a model prepared to fail
+// Output per thread count: status, regions entered, number of "Assertion ... failed" lines Assert() wrote to std::cerr
+// (the direct observation that the error WAS raised: distinguishes a swallowed exception from a stale trigger).
+#include <fcntl.h>
+#include <unistd.h>
+static ll count_assertions(const char* path) {
+    std::ifstream in(path); std::string l; ll n = 0;
+    while (std::getline(in,l)) if (l.find("Assertion `")!=std::string::npos) ++n;
+    return n;
+}
 static FWire exceptions(Reader& r) {
     const ll k = r.n(), trig = r.z(), f = r.z(); const size_t nt = r.n();
     std::vector<int> threads; for (size_t i=0;i<nt;++i) threads.push_back((int) r.n());
@@ -267,23 +279,41 @@ static FWire exceptions(Reader& r) {
     for (int t : threads) {
         omp_set_num_threads(t);
         int st = ST_OK; ll regions = 0;
+        std::cerr.flush(); fflush(stderr);
+        const int saved = dup(2); const int fd = open("assert.log",O_RDWR|O_CREAT|O_TRUNC,0600);
+        if (fd>=0) { dup2(fd,2); close(fd); }
         try {
             g_region = 0;
             if (trig==4) { compute(k,f); }
             else {
                 Loaded L(k); const Mesh& m = mesh_at(L.geo,0); const Integrator integ(3,0,0.005);
+                const unsigned n = L.geo.nb_parameters();
                 const unsigned first_t = m.triangles().front().index();
                 SymMatrix small(first_t+m.triangles().size()/2);    // rows of the second half of the triangles do not exist
                 small.set(0.0);
+                Matrix dm(1,6); dm(0,0)=0.1; dm(0,1)=0.05; dm(0,2)=0.2; dm(0,3)=1; dm(0,4)=0; dm(0,5)=0;
+                const Dipole dip(0,dm);
                 if (trig==1) { DiagonalBlock blk(m,integ); blk.S(1.0,small); }
                 else if (trig==2) { DiagonalBlock blk(m,integ); blk.D(1.0,small); }
                 else if (trig==3) { DiagonalBlock blk(m,integ); SymMatrix tiny(m.vertices().size()/2); tiny.set(0.0);
-                                    SymMatrix Sb(L.geo.nb_parameters()); Sb.set(0.0); blk.N(1.0,Sb,tiny); }
+                                    SymMatrix Sb(n); Sb.set(0.0); blk.N(1.0,Sb,tiny); }
+                else if (trig==5 || trig==6 || trig==7) {
+                    const Mesh& m1 = mesh_at(L.geo,1);
+                    NonDiagonalBlock blk(m,m1,integ);
+                    SymMatrix small1(m1.triangles().front().index()+m1.triangles().size()/2); small1.set(0.0);
+                    if (trig==5) blk.S(1.0,small1);
+                    else if (trig==7) blk.D(1.0,small);
+                    else { SymMatrix Sb(n); Sb.set(0.0); SymMatrix tiny(m1.vertices().front()->index()+m1.vertices().size()/2); tiny.set(0.0); blk.N(1.0,Sb,tiny); }
+                }
+                else if (trig==8) { Matrix mat(6,m.vertices().size()/2); mat.set(0.0); operatorFerguson(Vect3(2.0,1.5,1.0),m,mat,3,1.0); }
+                else if (trig==9) { Vector rhs(m.vertices().size()/2); rhs.set(0.0); operatorDipolePotDer(dip,m,rhs,1.0,Integrator(3,0,0.001)); }
+                else if (trig==10) { Vector rhs(first_t+m.triangles().size()/2); rhs.set(0.0); operatorDipolePot(dip,m,rhs,1.0,Integrator(3,0,0.001)); }
                 else throw Reader::Malformed();
             }
-        } catch (Reader::Malformed&) { throw; } catch (...) { st = status_of_current(); }
+        } catch (Reader::Malformed&) { std::cerr.flush(); dup2(saved,2); close(saved); throw; } catch (...) { st = status_of_current(); }
+        std::cerr.flush(); fflush(stderr); dup2(saved,2); close(saved);
         regions = g_region.load();
-        out.z.push_back(st); out.z.push_back(regions);
+        out.z.push_back(st); out.z.push_back(regions); out.z.push_back(count_assertions("assert.log"));
     }
     return out;
 }
